@@ -643,12 +643,58 @@ Qed.
 
 (* what the caller of the real client obtains for one exchange: the final response, its body
    and trailers, through the read mode it chose *)
+Lemma not_101_no_switch r : r_code r <> 101%Z -> is_switch r = false.
+Proof. intros H. unfold is_switch. destruct (Z.eqb_spec (r_code r) 101); [contradiction|reflexivity]. Qed.
+
 Theorem h1_delivery meth m sizes ims w r b :
   Forall interim_ok ims -> length ims <= max_1xx ->
-  parse_response meth br_size w = Accepted r b -> is_1xx_nonterminal (r_code r) = false ->
+  parse_response meth br_size w = Accepted r b -> (r_code r < 100 \/ 199 < r_code r)%Z ->
   h1_exchange meth m sizes (render_interims ims ++ w) =
     Some {| d_resp := r; d_body := b; d_api := run_mode m (r_code r) sizes (body_reader b) |}.
 Proof.
   intros Hok Hlen Hp Hfin. destruct (parse_response_accepted _ _ _ _ _ Hp) as (rest & Hh & ->).
-  unfold h1_exchange. rewrite (final_after_interims meth ims w r rest) by assumption. reflexivity.
+  assert (N1 : is_1xx_nonterminal (r_code r) = false).
+  { unfold is_1xx_nonterminal. destruct (Z.leb_spec 100 (r_code r)); destruct (Z.leb_spec (r_code r) 199);
+      try reflexivity. lia. }
+  unfold h1_exchange. rewrite (final_after_interims meth ims w r rest) by assumption.
+  unfold final_body. rewrite not_101_no_switch by lia. reflexivity.
+Qed.
+
+(* the informational responses are reported to the caller (httptrace.Got1xxResponse) with
+   exactly their own status and header multimap, in order *)
+Lemma read_head_interim_header meth bufsize i rest :
+  interim_ok i ->
+  exists r, read_response_head meth bufsize (render_interim i ++ rest) = inr (r, rest) /\
+            r_code r = i_code i /\ r_header r = collect (after_conn (map field_of (i_fields i))).
+Proof.
+  intros (Hc & H101 & Hr & Hf & Hp & Hte & Hcl). unfold render_interim.
+  rewrite read_head; [|lia|assumption..].
+  assert (Hrule : no_body_by_rule (i_code i) meth = true).
+  { unfold no_body_by_rule, body_allowed_for_status.
+    destruct (Z.leb_spec 100 (i_code i)); [|lia]. destruct (Z.leb_spec (i_code i) 199); [|lia].
+    cbn. now rewrite orb_true_r. }
+  destruct (read_transfer_nobody (i_code i) (i_reason i) meth _ [] Hrule Hte Hcl (or_introl eq_refl))
+    as (cl & close & E).
+  rewrite E. eexists. repeat split; reflexivity.
+Qed.
+
+Theorem interim_heads_delivered meth : forall ims fuel w r rest,
+  Forall interim_ok ims -> length ims < fuel ->
+  read_response_head meth br_size w = inr (r, rest) -> is_1xx_nonterminal (r_code r) = false ->
+  interim_heads fuel meth br_size (render_interims ims ++ w) =
+    map (fun i => (i_code i, collect (after_conn (map field_of (i_fields i))))) ims.
+Proof.
+  induction ims as [|i ims IH]; intros fuel w r rest Hok Hf Hw Hfin.
+  - destruct fuel as [|f]; [cbn in Hf; lia|]. cbn [render_interims flat_map app map interim_heads].
+    rewrite Hw, Hfin. reflexivity.
+  - inversion Hok as [|? ? Hi His]; subst. destruct fuel as [|f]; [cbn in Hf; lia|].
+    cbn [render_interims flat_map]. fold (render_interims ims). rewrite <- app_assoc.
+    cbn [interim_heads map].
+    destruct (read_head_interim_header meth br_size i (render_interims ims ++ w) Hi) as (r0 & -> & Hrc & Hrh).
+    destruct Hi as (Hc & H101 & _).
+    assert (H1 : is_1xx_nonterminal (r_code r0) = true).
+    { rewrite Hrc. unfold is_1xx_nonterminal.
+      destruct (Z.leb_spec 100 (i_code i)); [|lia]. destruct (Z.leb_spec (i_code i) 199); [|lia].
+      destruct (Z.eqb_spec (i_code i) 101); [contradiction|reflexivity]. }
+    rewrite H1, Hrc, Hrh. f_equal. eapply IH; try eassumption. cbn in Hf. lia.
 Qed.
